@@ -3111,6 +3111,8 @@ func _range(n *node) {
 	if len(n.child) == 4 {
 		an = n.child[2]
 		index1 := n.child[1].findex // array value location in frame
+		// No frame location is allocated for a blank value: it must not be assigned.
+		blankValue := isBlank(n.child[1])
 		if isString(an.typ.TypeOf()) {
 			// Special variant of "range" for string, where the index indicates the byte position
 			// of the rune in the string, rather than the index of the rune in array.
@@ -3127,11 +3129,13 @@ func _range(n *node) {
 				// Compute byte position of the rune in string
 				pos := a.Slice(0, i).Convert(stringType).Len()
 				f.data[index0].SetInt(int64(pos))
-				f.data[index1].Set(a.Index(i))
+				if !blankValue {
+					f.data[index1].Set(a.Index(i))
+				}
 				return tnext
 			}
 		} else {
-			value = genValueRangeArray(an, isBlank(n.child[1]))
+			value = genValueRangeArray(an, blankValue)
 			n.exec = func(f *frame) bltn {
 				a := f.data[index2]
 				v0 := f.data[index0]
@@ -3140,7 +3144,9 @@ func _range(n *node) {
 				if i >= a.Len() {
 					return fnext
 				}
-				f.data[index1].Set(a.Index(i))
+				if !blankValue {
+					f.data[index1].Set(a.Index(i))
+				}
 				return tnext
 			}
 		}
